@@ -57,9 +57,9 @@ def _impl_unobjid(vs, as_str):
              int(u.frame[i]), int(u['id'][i])] for i in range(len(vs))]
 
 
-def _impl_spec_array(fs):
+def _impl_spec_array(fs, dtype='int64'):
     from pydl.pydlutils.sdss import sdss_specobjid
-    a = np.array(fs, dtype=np.int64).reshape(len(fs), 5)
+    a = np.array(fs, dtype=np.int64).reshape(len(fs), 5).astype(dtype)
     try:
         r = sdss_specobjid(a[:, 0], a[:, 1], a[:, 2], a[:, 3], line=a[:, 4])
         return {'ok': [int(x) for x in r]}
@@ -363,9 +363,14 @@ def _spec(ctx):
         blk = good[(7 * j) % max(1, len(good)):][:4]
         pos = j % (len(blk) + 1)
         acases.append({'stream': 'spec', 'kind': 'array-bad', 'f': blk[:pos] + [t] + blk[pos:]})
+    # catalogue columns are stored as 16/32-bit integers (plate, fiber, mjd fit into int32; all but mjd into int16)
+    for j, dt in enumerate(['int32', 'uint32', 'int32', 'uint64', 'int16', 'uint16'] * 6):
+        blk = [t for t in good[j * 41:j * 41 + 30] if _fits([t], dt)] or [t for t in good if _fits([t], dt)][:5]
+        if blk:
+            acases.append({'stream': 'spec', 'kind': 'array-' + dt, 'dtype': dt, 'f': blk})
     model = core.driver_parallel([{'p': 'C06', 'op': 'spec', 'f': c['f']} for c in acases])
     for c, m in zip(acases, model):
-        impl = _impl_spec_array(c['f'])
+        impl = _impl_spec_array(c['f'], c.get('dtype', 'int64'))
         ctx.seen(c)
         ctx.count('spec:' + c['kind'] + (':err' if 'err' in impl else ':ok'))
         if impl != m:
@@ -375,12 +380,12 @@ def _spec(ctx):
             if impl != {'err': 'ValueError'}:
                 ctx.violate('spec-array:not-refused-with-ValueError', 'expected ValueError, got %s' % impl, c)
         elif impl != {'ok': want}:
-            ctx.violate('spec-array:layout', 'array call differs from the documented layout (true MJD in both conventions)', _min_array_case(c, want))
+            ctx.violate('spec-array:layout' + (':' + c['dtype'] if 'dtype' in c else ''), 'array call differs from the documented layout (true MJD in both conventions)', _min_array_case(c, want))
 
 
 def _min_array_case(c, want):
     for t, w in zip(c['f'], want):
-        if _impl_spec_array([t]) != {'ok': [w]}:
+        if _impl_spec_array([t], c.get('dtype', 'int64')) != {'ok': [w]}:
             return dict(c, f=[t])
     return c
 
@@ -389,7 +394,7 @@ def _unspec(ctx):
     rng = ctx.rng
     vs = [rng.getrandbits(64) for _ in range(ctx.n(3000, 150000))]
     vs += [0, 1, 2**63 - 1, 2**63, 2**64 - 1] + [1 << k for k in range(64)] + [(1 << k) - 1 for k in range(1, 65)]
-    vs += [(r << 10) | (rng.getrandbits(40) << 24) for r in range(0, 16384, ctx.n(13, 1))]
+    vs += [(r << 10) | (rng.getrandbits(40) << 24) | rng.getrandbits(10) for r in range(0, 16384)]  # every run2d value
     for i in range(0, len(vs), 500):
         blk = vs[i:i + 500]
         m = core.driver([{'p': 'C06', 'op': 'unspec', 'v': blk}])[0]
